@@ -738,6 +738,10 @@ Definition do_renominate (cfg : config) (l r : cand) (v : Z) : M :=
         emit (ORet ROk)
       end).
 
+(* the public method: RenominateCandidate runs on the task loop, so it is refused once the agent is closed *)
+Definition renominate_op (cfg : config) (l r : cand) (v : Z) : M :=
+  with_state s_closed (fun closed => if closed then emit (ORet RErrClosed) else do_renominate cfg l r v).
+
 (* Agent.Close: the task loop's on-close callback *)
 Definition do_close : M :=
   with_state s_closed (fun closed =>
@@ -776,7 +780,7 @@ Definition step_m (cfg : config) (o : op) : M :=
   | WriteToPair id p => conn_write_to_pair id p
   | Read => conn_read
   | Restart lu lp => do_restart lu lp
-  | Renominate l r v => do_renominate cfg l r v
+  | Renominate l r v => renominate_op cfg l r v
   | Close => do_close
   end.
 
